@@ -758,6 +758,9 @@ fn do_make_move<C: generic::Color>(b: &mut Board, mv: Move) -> RawUndo {
     }
     b.all = b.white | b.black;
 
+    #[cfg(feature = "verif-hooks")]
+    crate::verif_hooks::observe(crate::verif_hooks::Event::Make, b, mv);
+
     undo
 }
 
@@ -820,6 +823,9 @@ fn do_unmake_move<C: generic::Color>(b: &mut Board, mv: Move, u: RawUndo) {
         b.r.move_number -= 1;
     }
     b.all = b.white | b.black;
+
+    #[cfg(feature = "verif-hooks")]
+    crate::verif_hooks::observe(crate::verif_hooks::Event::Unmake, b, mv);
 }
 
 /// Makes the move `mv` on the board `b`
